@@ -142,7 +142,7 @@ def replay(pid, path):
         from ..props import pinned_probe
 
         enga.init()
-        bad = [r for r in pinned_probe.run() + pinned_probe.run_adjoint() + pinned_probe.run_nested() + pinned_probe.run_complex() if r["key"] == cex.get("key") and r["status"] == "violation"]
+        bad = [r for r in pinned_probe.run() + pinned_probe.run_adjoint() + pinned_probe.run_nested() + pinned_probe.run_complex() + pinned_probe.run_linear_extreme() if r["key"] == cex.get("key") and r["status"] == "violation"]
         for r in bad:
             print("replay %s: %s" % (r["key"], r["detail"]))
         if bad:
